@@ -190,9 +190,17 @@ def run(chk):
     if _TRANSLATE_ERROR:
         chk.violation("tie:translator:rules", "translate/rules.py no longer recognises the sources: " + _TRANSLATE_ERROR,
                       {"translator": "translate/rules.py", "error": _TRANSLATE_ERROR}, no_input=True)
+    stages = {}
+    t_stage = [time.time()]
+
+    def stage(name):
+        stages[name] = round(time.time() - t_stage[0], 1)
+        t_stage[0] = time.time()
+        chk.coverage["stage_seconds"] = stages
     ok = chk.prove(extra_targets=["Generated.Rules"])
     if not ok:
         handle_broken(chk)
+    stage("proofs+audit")
     chk.coverage["match_sites"] = [{"site": r[0], "required": len(r[1]), "arms": len(r[2]), "wildcard": r[3]} for r in _ROWS]
 
     # ================================================================== (i) lexical handlers
@@ -216,6 +224,7 @@ def run(chk):
                 chk.violation(f"tie:unit:{f}", f"model disagrees with the implementation on {f}({s!r}): model={rm} impl={got}",
                               {"harness": {"op": "lex", "f": f, "s": L(s)}, "model": f"lex {f} {cps(s)}", "model_out": rm, "impl": got}, no_input=True)
 
+    stage("escapes")
     # ---- interner: groups of spellings interned into one fresh interner
     def gen_name():
         k = rng.random()
@@ -259,6 +268,7 @@ def run(chk):
         if mk != kinds:
             chk.violation("tie:unit:intern", f"model disagrees with the implementation on interning {g}: model={mk} impl={kinds}", replay, no_input=True)
 
+    stage("interner")
     # ---- number literals through the language
     toks = [gen_number(rng) for _ in range(600 if quick else 8000)]
     toks += ["0x" + "f" * 33, "1e999", "0x_1", "0b_1", "1_", "1__2", "1._5", "1e-0_0", "0e0", "9" * 39, "1.5e3", "1E5", "123456789012345678901234567890.5"]
@@ -287,6 +297,7 @@ def run(chk):
             chk.violation("tie:lang:number", f"model disagrees with the implementation on the literal {t}: model={rm} impl={d}",
                           {"model": f"lex number {cps(t)}", "model_out": rm, "impl": d}, no_input=True)
 
+    stage("numbers")
     # ================================================================== (ii) totality and purity of feed_file
     base = corpus()
     chk.coverage["corpus_texts"] = len(base)
@@ -321,6 +332,7 @@ def run(chk):
     chk.sample({"compile": texts[0][1][:200]})
     chk.sample({"compile": texts[n_soup][1][:200]})
 
+    stage("totality")
     # ================================================================== (iii) determinism
     dets = []
     progs = [t for t in base if "fn main" in t or "let " in t]
@@ -352,6 +364,7 @@ def run(chk):
             if a != b:
                 chk.violation(f"determinism:{other}", f"the same text gives a different outcome when compiled {other}: first={json.dumps(r['first'])[:200]} {other}={json.dumps(r[other])[:200]}", replay)
 
+    stage("determinism")
     return chk.finish(rule="texts = token soups over the grammar's alphabet, mutations and splices of test_scripts/*.xr and the book's xray blocks, "
                            "bracket nestings up to depth 64 (balanced and not), numeric-literal spellings; escape/interner/number inputs over their own alphabets; "
                            "non-trivial = distinct generated (not shipped) inputs")
